@@ -30,7 +30,10 @@
      `0` followed by a digit;
    - `.` followed by a digit (a float such as `.5`);
    - an unterminated string or block comment, a newline or a bad escape in a string.
-   So [golex s = Some ts] says: Go's scanner splits s into exactly the tokens ts.
+   So [golex s = Some ts] says: Go's scanner splits s into exactly the tokens ts - up to the
+   one class listed under NOT MODELLED below (on a NUL, a BOM or invalid UTF-8 INSIDE a string
+   literal or a comment go/scanner reports an error next to the same tokens; checked by a
+   referee on 9,171 further texts: these were the only disagreements).
 
    NOT MODELLED.  Automatic semicolon insertion: a newline is white space here, the statement
    structure is the parser's business (go/scanner, once the inserted semicolons - the tokens
